@@ -308,7 +308,61 @@ func smallPkt(rng *rand.Rand) *mpkt {
 	}
 }
 
+// sharedObjects: one finished packet marshalled by several goroutines at once, and one received
+// datagram (a byte slice nobody writes to) decoded by several goroutines at once.
+func sharedObjects() {
+	const G = 8
+	rng := r.Rand("shared-objects")
+	for run := 0; run < r.Pick(80, 800); run++ {
+		m := smallPkt(rng)
+		want, _ := m.Pack(false)
+		comp, _ := m.Pack(true)
+		pristine := append([]byte(nil), comp...)
+		lp := toLib(m)
+		var wg sync.WaitGroup
+		start := make(chan struct{})
+		for g := 0; g < G; g++ {
+			wg.Add(1)
+			go func(g int) {
+				defer wg.Done()
+				<-start
+				for i := 0; i < 4; i++ {
+					var out []byte
+					var err error
+					p, v, st := mon.Guard(func() { out, err = lp.Marshal() })
+					switch {
+					case p:
+						r.Violation("Marshal:shared-packet:panic:"+mon.PanicClass(v), fmt.Sprintf("panic %v at %s (8 goroutines marshalling one packet)", v, mon.TopLibFrame(st)), pktCase(m, nil))
+					case err != nil || !bytes.Equal(out, want):
+						r.Violation("Marshal:shared-packet", fmt.Sprintf("8 goroutines marshalling the same packet: other bytes than alone (err=%v)", err), pktCase(m, out))
+					}
+					gp := &nbtns.NBTNSPacket{}
+					p, v, st = mon.Guard(func() { _, err = gp.Unmarshal(comp) })
+					switch {
+					case p:
+						r.Violation("Unmarshal:shared-input:panic:"+mon.PanicClass(v), fmt.Sprintf("panic %v at %s (8 goroutines decoding one datagram)", v, mon.TopLibFrame(st)), pktCase(m, pristine))
+					case err != nil:
+						r.Violation("Unmarshal:shared-input", fmt.Sprintf("8 goroutines decoding the same datagram: Unmarshal fails: %v", err), pktCase(m, pristine))
+					default:
+						if k, d := diffLib(&m.Pkt, gp); k != "" {
+							r.Violation("Unmarshal:shared-input", "8 goroutines decoding the same datagram: the result differs: "+k+" "+d, pktCase(m, pristine))
+						}
+					}
+				}
+			}(g)
+		}
+		close(start)
+		wg.Wait()
+		r.Eval(G * 4 * 2)
+		if !bytes.Equal(comp, pristine) {
+			r.Violation("Unmarshal:shared-input:input-modified", "the datagram handed to the decoders was written to", pktCase(m, pristine))
+		}
+		r.Nontrivial(fmt.Sprintf("shared-object|%d", run%40))
+	}
+}
+
 func concurrent() {
+	sharedObjects()
 	const G = 8
 	per := r.Pick(60, 400)
 	rounds := r.Pick(6, 20)
